@@ -65,6 +65,11 @@ theorem gen_depth_limit :
     the model (which has no counter) does not have. -/
 theorem gen_depth_balanced : JsonxVal.depthBalanced = true := by decide
 
+/-- `parseObjectEntries` admits exactly identifier and string tokens as keys, as the model's
+    `parseEntries` does — in particular not keyword tokens, for which the encoder has no key
+    text (`{true: 1}` must be rejected, not converted) -/
+theorem gen_key_tokens : JsonxVal.keyTokenTypes = ["tokIdent", "tokString"] := by decide
+
 /-- all hypotheses at once, for the theorems -/
 theorem gen_cfg_ok : CfgOK genCfg := by decide
 
